@@ -161,6 +161,11 @@ func (s *nilSer) callres(call *ir.Call, idx int) string {
 	if obj, ok := callee.Object().(*types.Func); ok && obj != nil {
 		final = s.res.Nilness(obj, idx)
 	}
+	if !iface {
+		// Result.Nilness normalises with the callee's declared result type (a type parameter counts as an
+		// interface there); the caller normalises with the instantiated result type of the call
+		final.Inner = nilness.MaybeNil
+	}
 	as.Final = [2]int{int(final.Inner), int(final.Outer)}
 	if !ok {
 		// never recorded: the block was not processed by the analysis (no path to it matters); model it as unknown
@@ -435,7 +440,7 @@ func SerNilFunc(fn *ir.Function, res *nilness.Result) NilFunc {
 		t := sig.Results().At(i).Type()
 		p := typeutil.IsPointerLike(t)
 		anyPtr = anyPtr || p
-		out.ResultInfo = append(out.ResultInfo, [2]bool{p, types.IsInterface(t)})
+		out.ResultInfo = append(out.ResultInfo, [2]bool{p, types.IsInterface(t) && !typeparams.IsTypeParam(t)})
 		n := res.Nilness(obj, i)
 		out.Facts = append(out.Facts, [2]int{int(n.Inner), int(n.Outer)})
 	}
